@@ -151,6 +151,48 @@ def lemma_fold_schemas():
 
 
 # ---------------------------------------------------------------------------------------------------
+def lemma_count_in():
+    """The schema behind speceval.fn_count_in: for a list with pairwise distinct names and a finite set S of names that all
+    occur in the list, the number of positions whose name is in S equals |S|.  Proved in the generalised form
+    C(n) = |S & N(n)| by induction on the prefix length n, with N(n) the names of the first n elements; the finite-set
+    primitive used is |A + {x}| = |A| + [x not in A] (the same axiom the engine uses for set.add)."""
+    Name = z3.DeclareSort("LName")
+    SetS = z3.ArraySort(Name, z3.BoolSort())
+    nm = z3.Function("nm", z3.IntSort(), Name)                 # name of the element at a position
+    N = z3.Function("N", z3.IntSort(), SetS)                   # names of the first n elements
+    C = z3.Function("C", z3.IntSort(), z3.IntSort())           # count_in of the first n elements
+    card = z3.Function("card", SetS, z3.IntSort())
+    Sset = z3.Const("S", SetS)
+    i, j, n = z3.Ints("i j n")
+    A = z3.Const("A", SetS)
+    x = z3.Const("x", Name)
+    empty = z3.K(Name, z3.BoolVal(False))
+    card_ax = z3.And(card(empty) == 0,
+                     z3.ForAll([A, x], card(z3.Store(A, x, z3.BoolVal(True))) == card(A) + z3.If(z3.Select(A, x), 0, 1)))
+    defN = z3.And(N(0) == empty, z3.ForAll([i], z3.Implies(i >= 0, N(i + 1) == z3.Store(N(i), nm(i), z3.BoolVal(True)))))
+    defC = z3.And(C(0) == 0, z3.ForAll([i], z3.Implies(i >= 0, C(i + 1) == C(i) + z3.If(z3.Select(Sset, nm(i)), 1, 0))))
+    distinct = z3.ForAll([i, j], z3.Implies(z3.And(0 <= i, i < j), nm(i) != nm(j)))
+    # N(n) is the set characterised by nameset(): x in N(n) <=> some position below n carries x   (one direction is what the step needs)
+    charN = lambda k: z3.ForAll([x], z3.Implies(z3.Select(N(k), x), z3.Exists([i], z3.And(0 <= i, i < k, nm(i) == x))))
+    I_n = z3.SetIntersect(Sset, N(n))
+    obs = [
+        _ob("L-count/char/base", "names of the empty prefix", [defN], charN(z3.IntVal(0))),
+        _ob("L-count/char/step", "x in N(n+1) => some position below n+1 carries x", [defN, n >= 0, charN(n)], charN(n + 1)),
+        _ob("L-count/base", "count over the empty prefix = |S & {}|", [defN, defC, card_ax], C(0) == card(z3.SetIntersect(Sset, N(0)))),
+        _ob("L-count/step/fresh", "the name at position n is not among the first n names", [defN, distinct, n >= 0, charN(n)], z3.Not(z3.Select(N(n), nm(n)))),
+        _ob("L-count/step/in", "count over n+1 elements = |S & N(n+1)|, new name in S",
+            [defN, defC, n >= 0, z3.Not(z3.Select(N(n), nm(n))), z3.Select(Sset, nm(n)), C(n) == card(I_n),
+             card(z3.Store(I_n, nm(n), z3.BoolVal(True))) == card(I_n) + z3.If(z3.Select(I_n, nm(n)), 0, 1)],      # instance of the finite-set axiom
+            C(n + 1) == card(z3.SetIntersect(Sset, N(n + 1)))),
+        _ob("L-count/step/out", "count over n+1 elements = |S & N(n+1)|, new name not in S",
+            [defN, defC, n >= 0, z3.Not(z3.Select(Sset, nm(n))), C(n) == card(I_n)],
+            C(n + 1) == card(z3.SetIntersect(Sset, N(n + 1)))),
+        _ob("L-count/subset", "S a subset of the names => |S & N| = |S|", [z3.IsSubset(Sset, N(n))], card(z3.SetIntersect(Sset, N(n))) == card(Sset)),
+    ]
+    return obs
+
+
+# ---------------------------------------------------------------------------------------------------
 def lemma_c20_running_stats():
     """L-C20: starting from (max, min, sum) = (0, sys.maxsize, 0) and applying the per-call update proved for
     update_resource_stats (max' = max(max, v), min' = min(min, v), sum' = sum + v) to samples 0 <= v <= sys.maxsize,
